@@ -1,4 +1,5 @@
 """C02 — dead-code completeness for structurally unreachable statements."""
+import ast as pyast
 import os
 
 import lib
@@ -17,6 +18,17 @@ def dup_module(rng):
     f1 = ('def', 0, 902, [('raise', 0), ('simple', 0)])
     f2 = ('def', 0, 902, [('simple', 0)])
     return [cls, f1, f2]
+
+
+def blocks_of(body):
+    """Every statement list of one function (not descending into nested defs)."""
+    yield body
+    for st in body:
+        if st[0] == 'def':
+            continue
+        for _, sb in pygen.sub_blocks(st):
+            for b in blocks_of(sb):
+                yield b
 
 
 def main(tier):
@@ -44,9 +56,14 @@ def main(tier):
     fb3, _ = pygen.enum_frame_bodies(3, rng, None if thorough else 700)
     mods += pygen.modules_from_bodies(fb2 + fb3[len(fb2) if thorough else 0:])
     mods += pygen.modules_from_bodies(pygen.arm_chain_bodies())
+    # dead tails that END with a multi-line statement: nested def / async def / decorated def / class with methods (one statement of
+    # the enclosing function, its body is in no other block of that function) and if/for/while/with/try/match, alone or after a
+    # simple statement / another def, after each terminator kind, at every position, in functions, methods, async and nested functions
+    tails = pygen.dead_tail_modules(sample=None if thorough else 520, rng=rng)
+    mods += tails
     # async defs, methods and decorated definitions (the files of this check are not executed): every third module
     for m in mods[::3]:
-        if not m.get("dup"):
+        if not m.get("dup") and "dead_tail" not in m:
             m["ast"], m["lines"] = pygen.layout(m["ast"], deco_rng=rng, ret_comps=True)
     d = lib.fresh_dir("c02")
     cc.write_modules(mods, d)
@@ -64,10 +81,18 @@ def main(tier):
     if not model_ok:
         ck.finish()
 
-    stats = dict(functions=0, must_dead=0, nested_defs=0, methods=0, positions={}, functions_with_must_dead=0)
+    stats = dict(functions=0, must_dead=0, nested_defs=0, methods=0, positions={}, functions_with_must_dead=0,
+                 dead_definitions=0, dead_definition_lines=0, dead_definitions_closing_their_block=0, dead_multiline_last=0,
+                 dead_tail_cases=sum(len(m["dead_tail"]) for m in tails), span_source={"python_ast": 0, "generator": 0, "disagree": 0})
     nviol = tie = 0
     for m in mods:
         defs = cc.def_table(m)
+        # extent of every definition: python3 ast end_lineno of the printed file, the generator's own span knowledge otherwise
+        try:
+            ends = {n.lineno: n.end_lineno for n in pyast.walk(pyast.parse("\n".join(m["lines"])))
+                    if isinstance(n, (pyast.FunctionDef, pyast.AsyncFunctionDef, pyast.ClassDef))}
+        except SyntaxError:
+            ends = None
         for name, lst in defs.items():
             dup = len(lst) > 1
             for idx, (s, path) in enumerate(lst):
@@ -85,6 +110,27 @@ def main(tier):
                     if any(x[1] in rec["must_dead"] for x in stl):
                         stats["positions"][kind] = stats["positions"].get(kind, 0) + 1
                 missing = [k for k in must if not cc.covered(k, ranges)]
+                # a dead nested definition is ONE statement of this function: every line of its extent has to be inside a finding
+                # (its body is reachable in its own CFG, nothing else reports those lines)
+                mustset = set(must)
+                for blk in blocks_of(body):
+                    if blk and blk[-1][1] in mustset and pygen.end_line(blk[-1]) > blk[-1][1]:
+                        stats["dead_multiline_last"] += 1
+                        stats["dead_definitions_closing_their_block"] += blk[-1][0] in ('def', 'class')
+                for st in pygen.own_statements(body):
+                    if st[0] in ('def', 'class') and st[1] in mustset:
+                        gen_end = pygen.end_line(st)
+                        end = gen_end
+                        if ends is not None and st[1] in ends:
+                            end = ends[st[1]]
+                            stats["span_source"]["python_ast"] += 1
+                            stats["span_source"]["disagree"] += end != gen_end
+                        else:
+                            stats["span_source"]["generator"] += 1
+                        stats["dead_definitions"] += 1
+                        stats["dead_definition_lines"] += end - st[1] + 1
+                        missing += [ln for ln in range(st[1] + 1, end + 1) if not cc.covered(ln, ranges) and ln not in missing]
+                missing.sort()
                 if missing:
                     tags = {"class": "duplicate-qualified-name"} if dup else {"class": "other"}
                     kf = ck.match_known(tags)
@@ -92,8 +138,8 @@ def main(tier):
                         ck.known_finding(kf)
                     elif nviol < 3:
                         nviol += 1
-                        ck.violation("statement at line %d of function %s follows a terminator (or an if whose arms all terminate) "
-                                     "but no dead-code finding at default severity covers it; findings: %s"
+                        ck.violation("line %d of function %s belongs to a statement that follows a terminator (or an if whose arms all "
+                                     "terminate) but no dead-code finding at default severity covers it; findings: %s"
                                      % (missing[0], name, ranges),
                                      {"kind": "missed-dead-code", "file": m.get("path"), "source": m["lines"], "function": name,
                                       "missing_lines": missing, "findings": m["impl_dead"].get(name, [])})
@@ -108,7 +154,11 @@ def main(tier):
     ck.cov.update({
         "evaluations": stats["must_dead"], "distinct_nontrivial": stats["functions_with_must_dead"],
         "rule": "one evaluation = one must-be-dead statement (spec must_dead_block evaluated in Coq) checked against pyscn's findings at default "
-                "severity for the function of that qualified name; distinct = functions containing at least one such statement",
+                "severity for the function of that qualified name: its first line and, for a dead nested def / async def / class (one statement "
+                "of the enclosing function), EVERY line up to its last line (python3 ast end_lineno) must lie inside a finding's line range; "
+                "compound statements are decided through each statement nested in them; dead tails ending in a multi-line definition or "
+                "compound statement are generated for every terminator kind x tail kind x context x position (input_distribution.dead_tail_cases); "
+                "distinct = functions containing at least one such statement",
         "input_distribution": stats, "disagreements_checked": nviol + tie, "modules": len(mods),
     })
     ck.trusted += ["Coq 8.16.1 kernel; vm_compute for spec/model evaluation",
